@@ -450,6 +450,25 @@ func (vlog *valueLog) rewrite(bucket uint32, fid uint32) error {
 		}
 	}
 
+	// Whatever superseded the records of this segment (this pass's rewrites, an
+	// earlier pass that failed after rewriting, newer client writes) may still
+	// sit in the WAL buffer and in unsynced value-log segments when SyncWrites is
+	// off. Make it durable before the segment goes away, or a crash leaves the
+	// recovered entries pointing into a file that no longer exists.
+	for _, m := range vlog.managers {
+		if m == nil {
+			continue
+		}
+		if err := m.SyncActive(); err != nil {
+			return err
+		}
+	}
+	if vlog.db.wal != nil {
+		if err := vlog.db.wal.Sync(); err != nil {
+			return err
+		}
+	}
+
 	deleteNow := false
 	vlog.filesToDeleteLock.Lock()
 	if vlog.iteratorCount() == 0 {
